@@ -124,7 +124,9 @@ class Ctx(object):
 
 
 def ref_to(st, v, mut=False):
-    return Ref(st.new_cell(v), [], mut=mut)
+    c = st.new_cell(v)
+    st.anchors.append(c)
+    return Ref(c, [], mut=mut)
 
 
 # ---------------------------------------------------------------- rendering (concrete values -> python)
